@@ -74,3 +74,12 @@ TEXT.update({
                 design_ref='DESIGN.md section 5, C09', level_note='Trusted: trap-MMU (kernel mprotect/TF semantics), sim backend stub. Real code: all of /repo/code/include core. x86-64/Linux only.',
                 technique='deterministic simulation: trap-MMU interleaving of guest writes at every RLBox access to sandbox memory, enumerated single-fault grid + seeded multi-fault runs, shrinking, replay'),
 })
+
+TEXT.update({
+    'C10': dict(level_text=('Every bulk operation\'s outcome is compared with the simulator\'s region table (must proceed / must abort) and its footprint with a byte-wise diff of both '
+                            'sandbox regions, their neighbouring application pages and a red-zoned application arena; reads are observed with the trap-MMU in a sixth of the runs; allocator, '
+                            'grant/deny and host malloc failures are injected. The (start, extent, operand type) space is sampled with boundary bias; the toctou world adds interleaved '
+                            'guest writes. Sampling evidence.'),
+                design_ref='DESIGN.md section 5, C10', level_note='Trusted: sim backend stub, trap-MMU, ASan for the application heap. Real code: all of /repo/code/include core.',
+                technique='deterministic simulation: seeded bulk operations with injected allocation/grant faults, byte-footprint + trap-MMU read-set oracle, shrinking, replay'),
+})
